@@ -75,6 +75,14 @@ def main(argv):
         lib()
         mod = importlib.import_module("vf.props." + spec.get("module", a.prop.lower()))
         ctx = Ctx(a.prop, spec)
+        if spec.get("shard", 0) % 4 == 3 and spec.get("replay") is None or (spec.get("replay") or {}).get("debug_logging"):
+            # every fourth shard runs in a process whose root logger is at DEBUG (as under `pytest --log-level=DEBUG`)
+            import logging
+
+            logging.getLogger().setLevel(logging.DEBUG)
+            logging.getLogger().addHandler(logging.NullHandler())
+            ctx.count("process_with_debug_logging")
+            ctx.debug_logging = True
         rl = spec.get("recursionlimit")
         if rl:
             sys.setrecursionlimit(int(rl))
